@@ -51,7 +51,17 @@ Open Scope nat_scope.
 
 (* cbca_step_1(cv)   numba signature 'f8[:, :](f4[:, :])'
    scalars: 0=n_col_ 1=n_row_ 2=col 3=row
-   arrays: 0=cv 1=step1 *)
+   arrays: 0=cv 1=step1
+   Python text (comments and docstring removed):
+     n_col_, n_row_ = cv.shape
+     step1 = np.zeros((n_col_, n_row_ + 1), dtype=np.float64)
+     for col in range(n_col_):
+         for row in range(n_row_):
+             if not np.isnan(cv[col, row]):
+                 step1[col, row] = step1[col, row - 1] + cv[col, row]
+             else:
+                 step1[col, row] = step1[col, row - 1]
+     return step1 *)
 Definition cbca_step_1 : kernel :=
   mkKernel [(F32, 2)] 4 2
   [
@@ -72,7 +82,24 @@ Definition cbca_step_1 : kernel :=
 
 (* cbca_step_2(step1, cross_left, cross_right, range_col, range_col_right)   numba signature '(f8[:, :], i2[:, :, :], i2[:, :, :], i8[:], i8[:])'
    scalars: 0=n_col_ 1=n_row_ 2=col 3=row 4=right 5=left
-   arrays: 0=step1 1=cross_left 2=cross_right 3=range_col 4=range_col_right 5=step2 6=sum_step2 *)
+   arrays: 0=step1 1=cross_left 2=cross_right 3=range_col 4=range_col_right 5=step2 6=sum_step2
+   Python text (comments and docstring removed):
+     n_col_, n_row_ = step1.shape
+     step2 = np.zeros((n_col_, n_row_ - 1), dtype=np.float64)
+     sum_step2 = np.zeros((n_col_, n_row_ - 1), dtype=np.float32)
+     for col in range(step1.shape[0]):
+         for row in range(range_col.shape[0]):
+             right = min(
+                 cross_left[col, range_col[row], 1],
+                 cross_right[col, range_col_right[row], 1],
+             )
+             left = min(
+                 cross_left[col, range_col[row], 0],
+                 cross_right[col, range_col_right[row], 0],
+             )
+             step2[col, range_col[row]] = step1[col, range_col[row] + right] - step1[col, range_col[row] - left - 1]
+             sum_step2[col, range_col[row]] += right + left
+     return step2, sum_step2 *)
 Definition cbca_step_2 : kernel :=
   mkKernel [(F64, 2); (I16, 3); (I16, 3); (I64, 1); (I64, 1)] 6 7
   [
@@ -93,7 +120,15 @@ Definition cbca_step_2 : kernel :=
 
 (* cbca_step_3(step2)   numba signature 'f8[:, :](f8[:, :])'
    scalars: 0=n_col_ 1=n_row_ 2=col 3=row
-   arrays: 0=step2 1=step3 *)
+   arrays: 0=step2 1=step3
+   Python text (comments and docstring removed):
+     n_col_, n_row_ = step2.shape
+     step3 = np.zeros((n_col_ + 1, n_row_), dtype=np.float64)
+     step3[0, :] = step2[0, :]
+     for col in range(1, n_col_):
+         for row in range(n_row_):
+             step3[col, row] = step3[col - 1, row] + step2[col, row]
+     return step3 *)
 Definition cbca_step_3 : kernel :=
   mkKernel [(F64, 2)] 4 2
   [
@@ -111,7 +146,28 @@ Definition cbca_step_3 : kernel :=
 
 (* cbca_step_4(step3, sum2, cross_left, cross_right, range_col, range_col_right)   numba signature '(f8[:, :], f4[:, :], i2[:, :, :], i2[:, :, :], i8[:], i8[:])'
    scalars: 0=n_col_ 1=n_row_ 2=col 3=row 4=top 5=bot
-   arrays: 0=step3 1=sum2 2=cross_left 3=cross_right 4=range_col 5=range_col_right 6=step4 7=sum4 *)
+   arrays: 0=step3 1=sum2 2=cross_left 3=cross_right 4=range_col 5=range_col_right 6=step4 7=sum4
+   Python text (comments and docstring removed):
+     n_col_, n_row_ = step3.shape
+     step4 = np.zeros((n_col_ - 1, n_row_), dtype=np.float64)
+     sum4 = np.copy(sum2)
+     for col in range(step4.shape[0]):
+         for row in range(range_col.shape[0]):
+             top = min(
+                 cross_left[col, range_col[row], 2],
+                 cross_right[col, range_col_right[row], 2],
+             )
+             bot = min(
+                 cross_left[col, range_col[row], 3],
+                 cross_right[col, range_col_right[row], 3],
+             )
+             step4[col, range_col[row]] = step3[col + bot, range_col[row]] - step3[col - top - 1, range_col[row]]
+             sum4[col, range_col[row]] += top + bot
+             if top != 0:
+                 sum4[col, range_col[row]] += np.sum(sum2[col - top : col, range_col[row]])
+             if bot != 0:
+                 sum4[col, range_col[row]] += np.sum(sum2[col + 1 : col + bot + 1, range_col[row]])
+     return step4, sum4 *)
 Definition cbca_step_4 : kernel :=
   mkKernel [(F64, 2); (F32, 2); (I16, 3); (I16, 3); (I64, 1); (I64, 1)] 6 8
   [
@@ -138,7 +194,42 @@ Definition cbca_step_4 : kernel :=
 
 (* cross_support(image, len_arms, intensity)   numba signature 'i2[:, :, :](f4[:, :], i8, f4)'
    scalars: 0=len_arms 1=intensity 2=n_col_ 3=n_row_ 4=col 5=row 6=left_len 7=left 8=right_len 9=right 10=up_len 11=up_col 12=bot_len 13=bot
-   arrays: 0=image 1=cross *)
+   arrays: 0=image 1=cross
+   Python text (comments and docstring removed):
+     n_col_, n_row_ = image.shape
+     cross = np.zeros((n_col_, n_row_, 4), dtype=np.int16)
+     for col in range(n_col_):
+         for row in range(n_row_):
+             if np.isfinite(image[col, row]):
+                 left_len = 0
+                 left = max(row - 1, 0)
+                 for left in range(row - 1, max(row - len_arms, -1), -1):
+                     if abs(image[col, row] - image[col, left]) >= intensity:
+                         break
+                     left_len += 1
+                 cross[col, row, 0] = max(left_len, 1 * (row >= 1) * np.isfinite(image[col, left]))
+                 right_len = 0
+                 right = min(row + 1, n_row_ - 1)
+                 for right in range(row + 1, min(row + len_arms, n_row_)):
+                     if abs(image[col, row] - image[col, right]) >= intensity:
+                         break
+                     right_len += 1
+                 cross[col, row, 1] = max(right_len, 1 * (row < n_row_ - 1) * np.isfinite(image[col, right]))
+                 up_len = 0
+                 up_col = max(col - 1, 0)
+                 for up_col in range(col - 1, max(col - len_arms, -1), -1):
+                     if abs(image[col, row] - image[up_col, row]) >= intensity:
+                         break
+                     up_len += 1
+                 cross[col, row, 2] = max(up_len, 1 * (col >= 1) * np.isfinite(image[up_col, row]))
+                 bot_len = 0
+                 bot = min(col + 1, n_col_ - 1)
+                 for bot in range(col + 1, min(col + len_arms, n_col_)):
+                     if abs(image[col, row] - image[bot, row]) >= intensity:
+                         break
+                     bot_len += 1
+                 cross[col, row, 3] = max(bot_len, 1 * (col < n_col_ - 1) * np.isfinite(image[bot, row]))
+     return cross *)
 Definition cross_support : kernel :=
   mkKernel [(F32, 2); (I64, 0); (F32, 0)] 14 2
   [
